@@ -56,7 +56,11 @@ def _cases(draw, tier):
     else:
         opts = draw(strategies.option_sets(inst, max_crit=4))
     choices = draw(strategies.choice_lists) if mode != 'cbc' else []
-    return {'inst': inst, 'opts': opts, 'choices': choices, 'mode': mode, 'salt': salt}
+    decoy = _lp.draw_decoy(draw, inst)
+    _ret = {'inst': inst, 'opts': opts, 'choices': choices, 'mode': mode, 'salt': salt}
+    if decoy:
+        _ret['decoy'] = decoy
+    return _ret
 
 
 def strategy(tier):
